@@ -236,7 +236,9 @@ u8_t *get_v_opt(int argc, char *argv[])
     srand((unsigned)time(NULL));
     fout.clear();
     int option_index = 0;
-    optind = 1;
+    // 0, not 1: an earlier parse may have been abandoned in the middle of a cluster of short options ("-edn"),
+    // and glibc forgets its position inside that cluster only when optind is 0 (full re-initialisation)
+    optind = 0;
     vpak_t *res = new vpak_t;
     res->mode = 'u';
     res->ctype = -1;
